@@ -667,6 +667,9 @@ type ecsSpec struct {
 	Addr hexBytes `json:"addr,omitempty"`
 	// Second is the second option of a "dup" query.
 	Second *ecsSpec `json:"second,omitempty"`
+	// Raw, if set, is the complete OPTION-DATA as sent (listener phase only:
+	// forms that cannot even be expressed as family/prefix/address).
+	Raw hexBytes `json:"raw,omitempty"`
 }
 
 type hexBytes []byte
@@ -1019,6 +1022,9 @@ func genECS(rng *rand.Rand, w *world, cl int) ecsSpec {
 func ecsWire(e *ecsSpec) []byte {
 	b := []byte{0, 8, 0, 0, byte(e.Family >> 8), byte(e.Family), e.Bits, 0}
 	b = append(b, e.Addr...)
+	if e.Raw != nil {
+		b = append([]byte{0, 8, 0, 0}, e.Raw...)
+	}
 	binary.BigEndian.PutUint16(b[2:], uint16(len(b)-4))
 	return b
 }
@@ -1218,6 +1224,9 @@ func (rn *runner) upstream(ctx context.Context, req *dns.Msg, _ *agd.RequestInfo
 	mode, ttl := "scope0", uint32(3600)
 	if qs != nil {
 		mode, ttl = qs.Mode, qs.TTL
+	} else if i := strings.Index(lname, "-"); i > 0 && strings.HasSuffix(lname, ".c05-wire.example.") {
+		// listener phase: the first label names the mode
+		mode = lname[:i]
 	}
 	rec.TTL = ttl
 	hdr := dns.RR_Header{Name: q.Name, Rrtype: q.Qtype, Class: dns.ClassINET, Ttl: ttl}
@@ -2124,6 +2133,7 @@ func TestCheck(t *testing.T) {
 			"ipv4_countries": len(countriesOf(d.zones4)), "ipv6_countries": len(countriesOf(d.zones6))})
 	}
 	refreshRace(r)
+	listenerPhase(r)
 	r.Extra("histories", map[string]int{"sequential": nSeq, "concurrent": nConc, "real_geoip_sequential": nReal, "real_geoip_concurrent": nRealConc})
 	r.Exhaustive(false)
 
@@ -2148,6 +2158,11 @@ func TestCheck(t *testing.T) {
 	r.Require("realgeo_distinct_countries_in_mapped_options", 3)
 	r.Require("realgeo_distinct_countries", 10)
 	r.Require("refresh_race_refreshes", 100)
+	r.Require("listener_cases", 300)
+	r.Require("listener_cases_malformed", 40)
+	r.Require("listener_cases_unparseable", 40)
+	r.Require("listener_cases_valid_or_zero", 60)
+	r.Require("listener_transports", 8)
 	r.Require("refresh_race_reader_calls_during_refresh", 2000)
 	r.Require("refresh_race_probes_location_changed_by_refresh", 1000)
 }
